@@ -1118,3 +1118,26 @@ def np_vectorize(ex, args, kw):
         return Vec([ex_.call_value(f, [x]) for x in seq], "array")
     mapped._pyvc_builtin = True
     return mapped
+
+
+# np.gcd.reduce(x): the greatest common divisor of the entries.  Contract used: the result is >= 1 (for a non-zero input) and
+# divides every entry (e == g * k_e); that it is the GREATEST such number is not used by any specification.
+LIBS[(NP, "gcd")] = Const(Record("ufunc_gcd"))
+
+
+@method("Record:ufunc_gcd", "reduce")
+def np_gcd_reduce(ex, self, args, kw):
+    v = args[0]
+    items = v.items if isinstance(v, Vec) else (list(v) if isinstance(v, (list, tuple)) else None)
+    if items is None:
+        raise Unsupported("np.gcd.reduce of a symbolic-length array")
+    if all(isinstance(x, int) for x in items):
+        import math
+        return math.gcd(*items) if items else 0
+    g = ex.ctx.fresh("gcd")
+    ex.ctx.assume(g >= 1)
+    for t, e in enumerate(items):
+        k = ex.ctx.fresh("gcdq")
+        ex.ctx.assume(to_z3(e) == g * k)
+    ex.ctx.ghost.setdefault("gcds", []).append((g, list(items)))
+    return g
